@@ -54,9 +54,14 @@ var c13Bundles = [][]c13File{
 	{{"one.soy", "{namespace a}\n/** @param x */\n{template .fwd}\n{call c.sink data=\"all\"/}\n{/template}\n"},
 		{"two.soy", "{namespace c}\n/** @param? x */\n{template .sink}\n{$x}\n{/template}\n/** @param x */\n{template .stale}\nno use\n{/template}\n"},
 		{"three.soy", "{namespace d}\n/** @param x */\n{template .fwd2}\n{call c.sink data=\"all\"/}\n{/template}\n"}},
+	// 16: a plural message with several explicit cases (their order in the id's fingerprint is the source order)
+	{{"one.soy", "{namespace a}\n/** @param x */\n{template .t}\n{msg desc=\"f\"}{plural $x.n}{case 0}none{case 2}two{case 1}one{default}{$x.n} many{/plural}{/msg}\n{/template}\n"}},
 }
 
-var c13Globals = data.Map{"G_MAP": data.Map{"k2": data.Int(2), "k1": data.String("v")}, "G_LIST": data.List{data.Int(1), data.String("s")}, "G_STR": data.String("g")}
+var c13Globals = data.Map{"G_MAP": data.Map{"k2": data.Int(2), "k1": data.String("v")}, "G_LIST": data.List{data.Int(1), data.String("s")}}
+
+// (a second source of globals: the same map objects are handed to every bundle built in a run)
+var c13Globals2 = data.Map{"G_STR": data.String("g")}
 
 var c13Perms = [][]int{{0, 1, 2}, {1, 0, 2}, {2, 1, 0}, {0, 2, 1}, {1, 2, 0}, {2, 0, 1}}
 
@@ -91,6 +96,7 @@ func c13Run(t, perm int) (decision, errText, rest string) {
 		}
 	}
 	b.AddGlobalsMap(c13Globals)
+	b.AddGlobalsMap(c13Globals2)
 	reg, err := b.Compile()
 	// compiling the same bundle again must give the same decision and error
 	_, err2 := b.Compile()
